@@ -2,4 +2,5 @@ import Cpppo.Props.C03
 import Cpppo.Props.C04
 import Cpppo.Props.C05
 import Cpppo.Props.C07
+import Cpppo.Props.C13
 import Cpppo.Props.C19
